@@ -483,8 +483,28 @@ class _Norm(ast.NodeTransformer):
                 return ast.copy_location(ast.If(test=strict, body=n.orelse, orelse=n.body), n)
         return n
 
+    def _copy_prop(self, stmts):
+        """N32: after a plain copy `x = y` (two names), the plain assignments that follow read y where they read x, until x or y
+        is written again (`off = offset; end = off + n` is `end = offset + n`).  Only the right-hand sides of plain assignments to
+        other names are touched; loops, branches and calls on x keep x."""
+        out = list(stmts)
+        for i, st in enumerate(out):
+            if isinstance(st, ast.Assign) and len(st.targets) == 1 and isinstance(st.targets[0], ast.Name) and isinstance(st.value, ast.Name) and \
+                    st.targets[0].id != st.value.id:
+                x, y = st.targets[0].id, st.value.id
+                for j in range(i + 1, len(out)):
+                    nx = out[j]
+                    if not (isinstance(nx, ast.Assign) and len(nx.targets) == 1 and isinstance(nx.targets[0], ast.Name)):
+                        break
+                    if nx.targets[0].id in (x, y):
+                        break
+                    for n in ast.walk(nx.value):
+                        if isinstance(n, ast.Name) and n.id == x and isinstance(n.ctx, ast.Load):
+                            n.id = y
+        return out
+
     def _block(self, stmts):
-        stmts = self._list_extends(self._split_tuples(stmts))
+        stmts = self._copy_prop(self._list_extends(self._split_tuples(stmts)))
         out = []
         i = 0
         while i < len(stmts):
